@@ -32,4 +32,5 @@ def check(name):
     """
     if isinstance(name, bytes):
         name = name.decode()
-    return "/" not in name
+    # (HDF5 link names cannot hold a NUL character either)
+    return "/" not in name and "\x00" not in name
